@@ -47,7 +47,8 @@ def configs(tier):
                     if g == 'P3' and full and form == 'separate' and I0 in ([0, 2], [1]):
                         # a source with two neighbours and two listed delays per neighbour (chained attempts towards each of them)
                         out.append(dict(entry='fast_nonMarkov_SIS', graph=g, I0=I0, R0=[], full=full, form=form, tmax='sym',
-                                        max_infections=(4 if tier == 'thorough' else 3) if len(I0) > 1 else 2, delays_per_pair=2, fixed_ndelays=True, tags=[g, form, 'two-delays']))
+                                        max_infections=(4 if tier == 'thorough' else 3) if len(I0) > 1 else 2, delays_per_pair=2, fixed_ndelays=True,
+                                        silent_sources=([2] if (tier == 'thorough' and len(I0) > 1) else []), tags=[g, form, 'two-delays']))
                     if g == 'K2' and full:
                         out.append(dict(entry='fast_nonMarkov_SIS', graph=g, I0=I0, R0=[], full=full, form=form, tmax='sym', fxn_args=True,
                                         max_infections=3, delays_per_pair=1, tags=[g, form, 'fxn-args']))
@@ -70,7 +71,7 @@ def run_path(h, cfg):
         return ep
 
     def delays_for(ep, u, v):
-        k = K if cfg.get('fixed_ndelays') else eng.choose(K + 1, 'ndelays')
+        k = 0 if u in cfg.get('silent_sources', ()) else (K if cfg.get('fixed_ndelays') else eng.choose(K + 1, 'ndelays'))
         out = []
         prev = 0
         for i in range(k):
